@@ -92,6 +92,20 @@ CHECKS = {
 		note='Model: chain -> most specific; otherwise LCA of the minimal elements; no common ancestor -> failed. One genuine defect found and repaired (order-dependent consensus).',
 		design='DESIGN.md §4 C10',
 	),
+	'C04': dict(
+		category='exploration',
+		technique='Hypothesis-generated genome sets x permuted/padded signature files x 4 id attributes x broken variants; join oracle = id->signature dict built by the harness',
+		text='Databases are written with generated identifiers (nasty Unicode strings, 62-bit ints), unrelated signatures (incl. IDs that collide with another attribute or an outside genome) and drawn file order/names; after load_from_dir each genome must point at the signature stored under its own identifier and query() must report the bit-exact distance to that signature for every genome under several chunk sizes; every way of breaking completeness / id_attr / directory contents must raise.',
+		note='Oracle built from what the harness wrote (dict id -> array) and R-JAC. Signature IDs within a file are unique (as the property quantifies).',
+		design='DESIGN.md §4 C04',
+	),
+	'C09': dict(
+		category='exploration',
+		technique='Hypothesis-generated tie-heavy distance rows and tie-heavy databases vs sort-by-(distance, index) oracle; subprocess differential across NumPy CPU-dispatch settings and core counts',
+		text='closest_genomes is compared with the (distance, reference order) prefix for generated rows with heavy ties (lengths up to 1000, all report_closest shapes), for generated databases with identical/equidistant genomes, and the JSON/CSV outputs of real `gambit query` subprocesses are compared across NPY_DISABLE_CPU_FEATURES settings and -c values (byte-identical lists, CSV and JSON name the same closest genome).',
+		note='CPU dispatch is varied on this sandbox CPU only. One genuine defect found and repaired (unstable argsort).',
+		design='DESIGN.md §4 C09',
+	),
 }
 
 NOT_APPLICABLE = {}
